@@ -267,8 +267,7 @@ def _get_OP_WRITE_CACHE_args(
                 cache_key = int(cache_key[1:].split('.')[0])
             else:
                 cache_key = int(cache_key[1:])
-            size = ceil(log2(cache_key+1)/8) or 1
-            cache_key = cache_key.to_bytes(size, 'big')
+            cache_key = int_to_bytes(cache_key)
         case 'x':
             cache_key = bytes.fromhex(cache_key[1:])
         case 's':
